@@ -230,6 +230,12 @@ def run_impl(case):
             out["p_or"] = float(ms.generate_penalty(cond, join=_por, **kw)(list(x)))
         except Exception as e:
             out["p_join_error"] = "%s: %s" % (type(e).__name__, str(e)[:120])
+        # the iteration counter of the stacked per-line terms: set to 3 and back to 0, the penalty is the n = 0 sum again
+        try:
+            if hasattr(pen, "iter"):
+                pen.iter(3); out["p_iter3"] = float(pen(list(x))); pen.iter(0); out["p_iter0"] = float(pen(list(x)))
+        except Exception as e:
+            out["p_iter_error"] = "%s: %s" % (type(e).__name__, str(e)[:120])
         # the same conditions handed over in another order (equalities first; interleaved flat list): the penalty kind goes with the condition
         try:
             out["p_rev"] = float(ms.generate_penalty((eq, ineq), **kw)(list(x)))
@@ -345,6 +351,10 @@ def oracle(case, obs):
         out.append(_fail("penalty_positive_elsewhere", "symbolic.generate_penalty", "negative-or-nan", p))
     elif abs(F(p) - exp) > F(1, 10 ** 9) * max(abs(exp), F(p)) and not (exp < F(1, 10 ** 300)):
         out.append(_fail("penalty_is_sum_of_terms", "symbolic.generate_penalty", "not-the-sum", dict(p=p, expected=float(exp), k=k)))
+    if "p_iter0" in obs and p == p and (obs["p_iter0"] != p) and not (obs["p_iter0"] != obs["p_iter0"]):
+        out.append(_fail("penalty_is_sum_of_terms", "penalty.iter", "iter-0-does-not-reset-the-multiplier", dict(p=p, after_iter0=obs["p_iter0"], at_iter3=obs.get("p_iter3"))))
+    if "p_iter_error" in obs:
+        out.append(_fail("penalty_is_sum_of_terms", "penalty.iter", "iter-raised", obs["p_iter_error"]))
     for key in ("p_rev", "p_flat"):
         q = obs.get(key)
         if q is not None and p == p and p >= 0 and p != float("inf") and not (exp < F(1, 10 ** 300)):
